@@ -338,6 +338,10 @@ def _find_witness(sp: Space, cols, vals, tau, rng, model_y=None, nra_timeout=100
       if abs(_poly_value(sp, cols, vals, x)) > tau:
         return x
   # numeric search: vertices / random points
+  if sp.atoms:
+    # the value of an atom depends on the variables of its ARGUMENT, which need not occur in the row itself (after the reduction modulo the atom
+    # relations a row may contain r = 1/(1 + c q) but not q): vary every variable, the atoms are recomputed by complete_point
+    used = np.nonzero(fin)[0]
   best = None; bestv = 0.0
   for trial in range(200):
     x = x0.copy()
